@@ -161,6 +161,67 @@ def run(ctx, R, tier):
             R.check(pa == pv == pk, "C01-R2", "%s|pre-conversion" % name, "pre-conversion of unsupported types is applied to results, vargs and kwargs alike", m["dumpsCall"].loc(),
                     "convert_obj_into_marshallable applied to: result=%s vargs=%s kwargs=%s" % (pa, pv, pk))
 
+    # ---------------------------------------------------------------- R7
+    R.rule("C01-R7", "the call envelope (object, method, vargs, kwargs) is written by dumpsCall and read by loadsCall in the same order / under the same keys", floor=4)
+    for c in sorted(sers, key=lambda c: c.name):
+        dc, lc = c.methods["dumpsCall"], c.methods["loadsCall"]
+        params = dc.params[1:5]
+        enc = lib_calls(ctx, dc, ENCODERS)
+        ok = False
+        why = "unrecognised call envelope"
+        if enc:
+            a0 = enc[0][0].args[0]
+            rd_ = ctx.rd(dc)
+            node = ctx.node_of(dc, enc[0][0])[0]
+
+            def origin(e, depth=0):
+                """which dumpsCall parameter does this envelope element derive from?"""
+                if isinstance(e, ast.Name):
+                    if e.id in params and all(d.kind == "param" for d in rd_.reaching(node, e.id)):
+                        return e.id
+                    defs = rd_.reaching(node, e.id)
+                    src = {origin(d.value, depth + 1) for d in defs if d.value is not None} if depth < 3 else set()
+                    return src.pop() if len(src) == 1 else None
+                names = {n.id for n in ast.walk(e) if isinstance(n, ast.Name) and n.id in params}
+                return names.pop() if len(names) == 1 else None
+            if isinstance(a0, ast.Name):
+                defs = rd_.reaching(node, a0.id)
+                vals = [d.value for d in defs if d.value is not None]
+                a0 = vals[0] if len(vals) == 1 else a0
+            if isinstance(a0, ast.Tuple) and len(a0.elts) == 4:
+                order = [origin(e) for e in a0.elts]
+                ok = order == params
+                why = "dumpsCall packs %s, loadsCall expects %s" % (order, params)
+                # reader: obj, method, vargs, kwargs = <decode>   or the decoder result returned as is
+                for n in walk_no_nested(lc.node):
+                    if isinstance(n, ast.Assign) and isinstance(n.targets[0], ast.Tuple) and len(n.targets[0].elts) == 4:
+                        names = [unparse(x) for x in n.targets[0].elts]
+                        rets = [r for r in walk_no_nested(lc.node) if isinstance(r, ast.Return) and isinstance(r.value, ast.Tuple)]
+                        if rets and [unparse(x) for x in rets[0].value.elts] != names:
+                            ok = False
+                            why = "loadsCall unpacks %s but returns %s" % (names, [unparse(x) for x in rets[0].value.elts])
+            elif isinstance(a0, ast.Dict):
+                keys = {k.value: origin(v) for k, v in zip(a0.keys, a0.values) if isinstance(k, ast.Constant)}
+                rets = [r for r in walk_no_nested(lc.node) if isinstance(r, ast.Return) and isinstance(r.value, ast.Tuple) and len(r.value.elts) == 4]
+                ok = bool(rets)
+                why = "loadsCall does not return a 4-tuple"
+                if ok:
+                    lrd = ctx.rd(lc)
+                    rnode = ctx.cfg(lc).nodes_for(rets[0])[0]
+
+                    def key_of(e, depth=0):
+                        for x in ast.walk(e):
+                            if isinstance(x, ast.Subscript) and isinstance(x.slice, ast.Constant) and isinstance(x.slice.value, str):
+                                return x.slice.value
+                        if isinstance(e, ast.Name) and depth < 3:
+                            ks = {key_of(d.value, depth + 1) for d in lrd.reaching(rnode, e.id) if d.value is not None}
+                            return ks.pop() if len(ks) == 1 else None
+                        return None
+                    got = [keys.get(key_of(e)) for e in rets[0].value.elts]
+                    ok = got == params
+                    why = "written under keys %s, read back in the order %s (expected %s)" % (keys, got, params)
+        R.check(ok, "C01-R7", "%s|call-envelope" % c.name, "object, method, vargs and kwargs travel in matching positions / keys", dc.loc(), why)
+
     # ---------------------------------------------------------------- R3
     from ..report import Rules
     from . import c06
